@@ -1,14 +1,160 @@
-"""C05 - see core_mod.SPEC['C05'] (generators, projections) and core_props.oracle_c05 (spec on the implementation)."""
+"""C05 - see core_mod.SPEC['C05'] (generators, projections) and core_props.oracle_c05 (spec on the implementation).
+
+Plus a directed, implementation-only family `shape_cases` (both tiers): closures whose *size* is far outside what the random
+scenarios reach - a chain of depth d (each handler fires the next event), a fan-out of width w below one handler, and a comb
+(chain whose every level also fires w leaves), under a root that asks for `complete`; some members cancelled or raising.  C05
+quantifies over "every finite tree of events (fan-out, depth ...)"; the Lean theorems have no size bound, but whether the Python
+code walks a deep closure with bounded stack is a fact about the implementation that only running it can show.  Judged on the
+implementation alone with C05's own clauses: `<name>_complete` exactly once, only after every member of the closure was
+dispatched, and nothing escapes the loop.
+"""
 import core_mod
+
+DEPTHS_QUICK = [1, 10, 150, 1200, 3000]
+WIDTHS_QUICK = [1, 50, 2000]
 
 
 def run(ctx):
     core_mod.run(ctx, 'C05')
+    shape_cases(ctx)
 
 
 def search(ctx):
     core_mod.run(ctx, 'C05')
+    shape_cases(ctx)
 
 
 def replay(ctx, case):
+    if case.get('kind') == 'shape':
+        check_shape(ctx, case)
+        return
     core_mod.replay(ctx, 'C05', case)
+
+
+def shape_cases(ctx):
+    for d in DEPTHS_QUICK + ([6000] if ctx.scale > 1 else []):
+        for spoil in ('none', 'cancel-last', 'raise-middle', 'stop-middle'):
+            check_shape(ctx, {'kind': 'shape', 'shape': 'chain', 'depth': d, 'width': 0, 'spoil': spoil})
+    for w in WIDTHS_QUICK:
+        check_shape(ctx, {'kind': 'shape', 'shape': 'fan', 'depth': 1, 'width': w, 'spoil': 'none'})
+        check_shape(ctx, {'kind': 'shape', 'shape': 'fan', 'depth': 1, 'width': w, 'spoil': 'cancel-last'})
+    for d, w in ((40, 3), (400, 2)):
+        check_shape(ctx, {'kind': 'shape', 'shape': 'comb', 'depth': d, 'width': w, 'spoil': 'none'})
+
+
+def run_shape(case):
+    """-> dict(dispatched=[...], complete_at=[index in dispatched order], escaped=str|None, expected=int)"""
+    from circuits import BaseComponent, Event, handler
+    depth, width, spoil, shape = case['depth'], case['width'], case['spoil'], case['shape']
+
+    class job(Event):
+        complete = True
+
+    class step(Event):
+        pass
+
+    class leaf(Event):
+        pass
+
+    seen = []
+    completes = []
+    state = {'to_cancel': None}
+
+    class App(BaseComponent):
+        channel = 'app'
+
+        @handler('job')
+        def _on_job(self, event):
+            seen.append(('job', 0))
+            if shape == 'fan':
+                last = None
+                for i in range(width):
+                    last = self.fire(leaf(i))
+                if spoil == 'cancel-last' and last is not None:
+                    last.event.cancel() if hasattr(last, 'event') else None
+            else:
+                self.fire(step(1))
+
+        @handler('step')
+        def _on_step(self, event, n):
+            seen.append(('step', n))
+            if shape == 'comb':
+                for i in range(width):
+                    self.fire(leaf(n * 1000 + i))
+            if n == (depth + 1) // 2:
+                if spoil == 'raise-middle':
+                    if n < depth:
+                        self.fire(step(n + 1))
+                    raise ValueError('spoiled on purpose')
+                if spoil == 'stop-middle':
+                    event.stop()
+            if n < depth:
+                v = self.fire(step(n + 1))
+                if spoil == 'cancel-last' and n + 1 == depth:
+                    v.event.cancel()
+
+        @handler('step', priority=-1)
+        def _on_step_low(self, event, n):
+            seen.append(('step-low', n))
+
+        @handler('leaf')
+        def _on_leaf(self, event, n):
+            seen.append(('leaf', n))
+
+        @handler('job_complete')
+        def _on_done(self, event, *args):
+            completes.append(len(seen))
+
+        @handler('exception')
+        def _on_exc(self, *args, **kw):
+            pass
+
+    app = App()
+    escaped = None
+    try:
+        app.fire(job())
+        n = 0
+        while len(app):
+            app.flush()
+            n += 1
+            if n > 4 * (depth + 2) * (width + 2) + 100:
+                escaped = 'loop does not drain'
+                break
+    except BaseException as e:  # noqa: BLE001 - anything leaving flush() is the finding
+        escaped = f'{type(e).__name__}'
+    # what must have been dispatched before job_complete may fire
+    cancelled_last = spoil == 'cancel-last'
+    if shape == 'fan':
+        want_leaves = width - (1 if cancelled_last and width else 0)
+        want_steps = 0
+    else:
+        want_steps = depth - (1 if cancelled_last and depth >= 2 else 0)
+        want_leaves = width * want_steps if shape == 'comb' else 0
+    got_steps = len([1 for k, _n in seen if k == 'step'])
+    got_leaves = len([1 for k, _n in seen if k == 'leaf'])
+    return {'escaped': escaped, 'completes': completes, 'seen': len(seen), 'want_steps': want_steps, 'got_steps': got_steps,
+            'want_leaves': want_leaves, 'got_leaves': got_leaves}
+
+
+def check_shape(ctx, case):
+    with ctx.guard(case, what='Manager.flush() over a large causal closure'):
+        r = run_shape(case)
+    tag = f"{case['shape']},{case['spoil']}"
+    size = 'depth>=1000' if case['depth'] >= 1000 else ('width>=1000' if case['width'] >= 1000 else 'small')
+    ctx.count('closure_shape', f"{case['shape']}:depth={case['depth']}:width={case['width']}:{case['spoil']}")
+    ctx.case(case, nontrivial=case['depth'] + case['width'] > 2)
+    if r['escaped']:
+        ctx.violate(case, f"loop-died({r['escaped']};{tag};{size})",
+                    f"{r['escaped']} left flush() while a closure of {case['shape']} depth {case['depth']} width {case['width']} "
+                    f"was draining; job_complete fired {len(r['completes'])} time(s)")
+        return
+    if r['got_steps'] != r['want_steps'] or r['got_leaves'] != r['want_leaves']:
+        ctx.violate(case, f'closure-not-dispatched({tag};{size})',
+                    f"dispatched {r['got_steps']} step and {r['got_leaves']} leaf events, expected {r['want_steps']} and {r['want_leaves']}")
+        return
+    if len(r['completes']) != 1:
+        ctx.violate(case, f"{'never-completes' if not r['completes'] else 'complete-twice'}({tag};{size})",
+                    f"job_complete fired {len(r['completes'])} times for a closure of depth {case['depth']} width {case['width']}")
+    elif r['completes'][0] != r['seen']:
+        ctx.violate(case, f'early-complete({tag};{size})',
+                    f"job_complete was handled after {r['completes'][0]} of {r['seen']} handler invocations of its closure")
